@@ -1244,6 +1244,12 @@ func TestC29(t *testing.T) {
 		t.Fatalf("harness trouble: %s", inconc[0])
 	}
 
+	// identification strings (both sides drawn)
+	c29Versions(c, t)
+	if t.Failed() {
+		return
+	}
+
 	// shared-secret encoding classes (pinned / searched ephemerals)
 	c29KClasses(c, t)
 	if t.Failed() {
